@@ -135,3 +135,50 @@ Definition dec_error (E : shape) (v : jval) : option rval := decoder E Direct v.
 
 Definition enc_reply (P : shape) (r : rval) : option jval := encoder (reply_shape P) r.
 Definition dec_reply (P : shape) (v : jval) : option rval := decoder (reply_shape P) Direct v.
+
+(* ---------------------------------------------------------------- building calls and replies *)
+(* call/mod.rs: Call::new(method) (all flags false; `From<M>` is Call::new), and the setters
+   set_oneway / set_more / set_upgrade, each assigning its own field and nothing else.
+   reply.rs: Reply::new(parameters) (continues: None; `From<Params>` is Reply::new(Some(p))) and
+   set_continues.  A value is built by a constructor followed by setters IN SOME ORDER; what goes
+   on the wire must depend on the resulting logical value only. *)
+Inductive flag := Oneway | More | Upgrade.
+
+Record callv := mk_callv { cv_meth : rval; cv_oneway : bool; cv_more : bool; cv_upgrade : bool }.
+
+Definition call_new (meth : rval) : callv := mk_callv meth false false false.
+
+Definition call_set (c : callv) (op : flag * bool) : callv :=
+  match op with
+  | (Oneway, b) => mk_callv (cv_meth c) b (cv_more c) (cv_upgrade c)
+  | (More, b) => mk_callv (cv_meth c) (cv_oneway c) b (cv_upgrade c)
+  | (Upgrade, b) => mk_callv (cv_meth c) (cv_oneway c) (cv_more c) b
+  end.
+
+Definition build_call (meth : rval) (ops : list (flag * bool)) : callv :=
+  fold_left call_set ops (call_new meth).
+
+Definition call_rval (c : callv) : rval :=
+  mk_call (cv_meth c) (cv_oneway c) (cv_more c) (cv_upgrade c).
+
+(* the logical value, order-free: a flag is what its LAST setter said, false if there was none *)
+Definition flag_eqb (a b : flag) : bool :=
+  match a, b with Oneway, Oneway | More, More | Upgrade, Upgrade => true | _, _ => false end.
+
+Fixpoint last_set (f : flag) (ops : list (flag * bool)) (dflt : bool) : bool :=
+  match ops with
+  | [] => dflt
+  | (g, b) :: ops' => last_set f ops' (if flag_eqb f g then b else dflt)
+  end.
+
+Record replyv := mk_replyv { rv_params : rval; rv_continues : option bool }.   (* rv_params: RNone | RSome p *)
+
+Definition reply_new (params : rval) : replyv := mk_replyv params None.
+Definition reply_from (p : rval) : replyv := reply_new (RSome p).
+Definition reply_set_continues (r : replyv) (c : option bool) : replyv := mk_replyv (rv_params r) c.
+
+Definition build_reply (params : rval) (ops : list (option bool)) : replyv :=
+  fold_left reply_set_continues ops (reply_new params).
+
+Definition reply_rval (r : replyv) : rval :=
+  RStruct [rv_params r; match rv_continues r with Some b => RSome (RBool b) | None => RNone end; RDefault].
